@@ -6,7 +6,13 @@ MODULES = []
 THEOREMS = []
 
 
+# known finding: generated <Dict>BytesInternalReadTL2 reads each element into a local copy (`elem := (*vec)[i]`), so the slice-backed
+# dictionary of the []byte variant comes back with empty elements after ReadTL2. Identified by call site.
+BYTES_DICT_TL2_KEY = "bytes-dict-ReadTL2-reads-into-copy:qt_dict.qtpl BytesInternalReadTL2"
+
+
 def run(c):
+    known_lines = set()
     if MODULES:
         c.lean(MODULES, THEOREMS)
     # only schemas generated with --generateByteVersions
@@ -34,5 +40,56 @@ def run(c):
         for (l, a, _), (_, b, _) in zip(res_str, res_byt):
             if a != b:
                 c.oracle_fail(l, "[]byte variant and string variant differ on the same input: string %s, bytes %s" % (a[:100], b[:100]), l)
+        # mixed TL1/TL2/JSON/Reset histories into one object, on canonical inputs, string variant vs []byte variant
+        if sc.tl2:
+            from vlib.core import run_lines, hx
+            g = cc.Gen1(sc, rng.fork())
+            raw = []
+            for inst, it in sc.items:
+                for k in range(8 if c.thorough else 4):
+                    g.zero_bias = (0, 50, 90, 0)[k % 4]
+                    raw.append((inst, hx(g.value(inst["idx"], False, [], 0))))
+            can = run_lines(sc.impl, ["codec.x1 %s %d %s 1 %s" % (sc.sid, i["idx"], i["tlname"], h) for i, h in raw], prefix=pre)
+            prep = [(i, cc.outputs(a).get("w1b")) for (i, h), a in zip(raw, can) if a.startswith("ok ") and cc.outputs(a).get("w1b") not in (None, "n/a", "werr")]
+            tl2s = run_lines(sc.impl, ["codec.x2 %s %d %s 1 %s" % (sc.sid, i["idx"], i["tlname"], h) for i, h in prep], prefix=pre)
+            jts = run_lines(sc.impl, ["codec.jtext %s %d %s 1 %s" % (sc.sid, i["idx"], i["tlname"], h) for i, h in prep], prefix=pre)
+            pool = {}
+            for (inst, h), a2, aj in zip(prep, tl2s, jts):
+                enc = [("1", h)]
+                if a2.startswith("ok "):
+                    w2 = dict(p.split("=", 1) for p in a2.split(" ")[1:] if "=" in p).get("w2")
+                    if w2 and w2 not in ("n/a", "panic", "werr"):
+                        enc.append(("2", w2))
+                # JSON texts with escapes are left to C05 (known finding there: escaped dictionary keys are not unescaped on read)
+                if aj.startswith("ok ") and len(aj.split(" ")) > 1 and aj.split(" ")[1] != "-" and "5c" not in [aj.split(" ")[1][i:i + 2] for i in range(0, len(aj.split(" ")[1]), 2)]:
+                    enc.append(("j", aj.split(" ")[1]))
+                pool.setdefault(inst["idx"], (inst, []))[1].extend(enc)
+            mixed = []
+            for idx, (inst, encs) in pool.items():
+                for _ in range(6 if c.thorough else 3):
+                    steps = []
+                    for _ in range(rng.range(2, 5)):
+                        k, h = rng.choice(encs)
+                        if rng.chance(1, 8):
+                            steps.append("r:-")
+                        steps.append(k + ":" + h)
+                    mixed.append("codec.seqx %s %d %s %s" % (sc.sid, inst["idx"], inst["tlname"], " ".join(steps)))
+            ms = c.tie("mixed-string:" + sc.sid, mixed, sc.impl, model, prefix=pre)
+            mb = c.tie("mixed-bytes:" + sc.sid, mixed, sc.impl + ["-bytes"], model, prefix=pre)
+            for (l, a, _), (_, b, _) in zip(ms, mb):
+                if a == b:
+                    continue
+                pa, pb = a.split(" | "), b.split(" | ")
+                steps = l.split(" ")[4:]
+                first = next((i for i in range(min(len(pa), len(pb))) if pa[i] != pb[i]), 0)
+                if "dict" in cc.reach_kinds(sc, int(l.split(" ")[2])) and steps[first].startswith("2:"):
+                    # known finding (recorded by the TL2 builder under C03): the []byte dictionary ReadTL2 reads every element into a copy
+                    c.oracle_failures.append({"key": BYTES_DICT_TL2_KEY, "what": "bytes-dict-tl2", "input": l})
+                    known_lines.add(l)
+                else:
+                    c.oracle_fail(l, "[]byte variant and string variant differ after the same history (step %d %s): string %s, bytes %s" % (first, steps[first][:40], pa[first][:80], pb[first][:80]), l)
+            for t in c.tie_failures:
+                if t["line"] in known_lines and t["tie"].startswith("mixed-bytes"):
+                    t["explained"] = True
     c.extra["rule"] = ("inputs: encodings written by the string variant (dictionaries sorted, unique keys) and rejected malformed inputs; both "
                        "CreateObject() and CreateObjectBytes() decode and re-encode them; model is representation-agnostic")
